@@ -477,7 +477,7 @@ static void do_action(const char *a)
 		else if (a[1] == 'i')
 			iv_invalidate_now();
 		else if (a[1] == 'v')
-			iv_validate_now();
+			(void)__iv_now_location_valid();	/* iv_validate_now() is an empty macro; iv_now validates */
 		break;
 	}
 }
